@@ -75,3 +75,68 @@ def cq_replay(repo, script_json):
         return "driver does not build: " + err
     p = subprocess.run([exe, "replay", script_json], stdout=subprocess.PIPE, stderr=subprocess.PIPE, timeout=600)
     return p.stdout.decode("utf8", "replace").strip()
+
+
+RT_FAMILY = {"C02", "C03", "C10", "C11"}
+
+
+def _build_rt(repo):
+    os.makedirs(WORK_BASE, exist_ok=True)
+    tag = hashlib.sha1(repo.encode()).hexdigest()[:8]
+    d = os.path.join(WORK_BASE, "rt_driver-" + tag)
+    os.makedirs(os.path.join(d, "src"), exist_ok=True)
+    cargo = open(os.path.join(ROOT, "replay/rt_driver/Cargo.toml")).read().replace("@REPO@", repo)
+    open(os.path.join(d, "Cargo.toml"), "w").write(cargo)
+    shutil.copy(os.path.join(ROOT, "replay/rt_driver/src/main.rs"), os.path.join(d, "src/main.rs"))
+    for cand in (os.path.join(repo, "Cargo.lock"), "/repo/Cargo.lock"):
+        if os.path.exists(cand):
+            shutil.copy(cand, os.path.join(d, "Cargo.lock"))
+            break
+    env = dict(os.environ, CARGO_NET_OFFLINE="true", RUSTFLAGS="--cfg tokio_unstable")
+    p = subprocess.run(["cargo", "build", "--offline"], cwd=d, env=env, stdout=subprocess.PIPE, stderr=subprocess.STDOUT, timeout=1800)
+    out = p.stdout.decode("utf8", "replace")
+    if p.returncode != 0:
+        errs = [l for l in out.splitlines() if l.startswith("error")]
+        return None, (errs or [out[-300:]])[0]
+    return os.path.join(d, "target/debug/rt_driver"), None
+
+
+def rt_search(repo, prop, tier, seed=1):
+    """Runtime-level bounded replay (replay/rt_driver): seeded random scenarios on the real `des` crate."""
+    t0 = time.time()
+    os.makedirs(WORK_BASE, exist_ok=True)
+    lockf = open(os.path.join(WORK_BASE, "rt_driver.lock"), "w")
+    fcntl.flock(lockf, fcntl.LOCK_EX)
+    try:
+        count = 300000 if tier == "thorough" else 30000
+        res = {"what": "bounded replay of the Runtime-level contracts (dispatch_event / dispatch_all / dispatch_n_events / dispatch_events_until / finish / add_event) on the real `des` crate against an executable reference (abstract event set + applies_spec + stepping semantics): %d seeded random scenarios (initial events with ties and bucket/year boundaries, handler follow-ups incl. zero delay, start times, limit trees via Builder, step schedules with external adds while paused)" % count,
+               "bound": "%d random scenarios, <= 4 initial events, <= 6 follow-ups, <= 5 steps; seed %d" % (count, seed), "labelled": "bounded", "counts_as_proof": False}
+        exe, err = _build_rt(repo)
+        if exe is None:
+            res.update({"status": "not_run", "reason": "driver does not build against this tree: " + err, "wall_s": round(time.time() - t0, 2)})
+            return res
+        try:
+            p = subprocess.run([exe, "search", str(count), str(seed), prop], stdout=subprocess.PIPE, stderr=subprocess.PIPE, timeout=900)
+        except subprocess.TimeoutExpired:
+            res.update({"status": "mismatch", "mismatch": {"kind": "scenario-does-not-return", "props": "C02 C10 C11", "expected": "every scenario terminates", "observed": "no result within 900 s"}, "wall_s": round(time.time() - t0, 2)})
+            return res
+        line = (p.stdout.decode("utf8", "replace").strip().splitlines() or ["{}"])[-1]
+        try:
+            j = json.loads(line)
+        except Exception:
+            j = {}
+        res["wall_s"] = round(time.time() - t0, 2)
+        res["cmd"] = "rt_driver search %d %d %s   (built from replay/rt_driver against %s/des)" % (count, seed, prop, repo)
+        if j.get("mismatch"):
+            res.update({"status": "mismatch", "mismatch": j})
+        elif "scenarios" in j:
+            res.update({"status": "no_mismatch", "scenarios": j["scenarios"], "other_property_mismatch": j.get("other") or None})
+        else:
+            res.update({"status": "not_run", "reason": "driver crashed: " + p.stderr.decode("utf8", "replace")[-300:]})
+        return res
+    finally:
+        if repo != "/repo":
+            tag = hashlib.sha1(repo.encode()).hexdigest()[:8]
+            shutil.rmtree(os.path.join(WORK_BASE, "rt_driver-" + tag), ignore_errors=True)
+        fcntl.flock(lockf, fcntl.LOCK_UN)
+        lockf.close()
